@@ -406,7 +406,8 @@ fn macroexpand_internal(mem: &mut Memory, expression: GcRef, env: GcRef, env_mod
                     }
                 }
 
-                // ...otherwise return the whole list as-is
+                // ...otherwise return the whole list, with the (possibly expanded) operator
+                list_elems[0] = operator;
                 Ok(vec_to_list(mem, &list_elems))
             }
         }
